@@ -115,10 +115,13 @@ WJC = "call:_ReusablePoolExecutor._wait_job_completion"
 ADJ = "call:ProcessPoolExecutor._adjust_process_count"
 c.ensures("resize/waits-for-jobs-then-tops-up",
           f"implies(old(self._max_workers) != {MW} and old(self._executor_manager_thread) is not None, "
-          f"log_count('{WJC}') == 1 and log_count('{ADJ}') == 1 and log_before('{WJC}', '{ADJ}') and G.n_sentinels >= old(G.n_sentinels))")
+          f"log_count('{WJC}') == 1 and G.n_sentinels >= old(G.n_sentinels) and "
+          # the top-up is skipped only for a pool found broken after the wait for departures (F21)
+          f"((log_count('{ADJ}') == 1 and log_before('{WJC}', '{ADJ}')) or (log_count('{ADJ}') == 0 and self._flags.broken is not None)))")
 WK = "call:_ThreadWakeup.wakeup"
 c.ensures("resize/manager-woken-after-the-top-up-so-that-it-watches-the-new-workers",
-          f"implies(old(self._max_workers) != {MW} and old(self._executor_manager_thread) is not None and self._executor_manager_thread_wakeup is not None, "
+          f"implies(old(self._max_workers) != {MW} and old(self._executor_manager_thread) is not None and self._executor_manager_thread_wakeup is not None and "
+          f"log_count('{ADJ}') == 1, "
           f"log_count('{WK}') == 1 and log_arg('{WK}', 0, 1) is self._executor_manager_thread_wakeup and log_before('{ADJ}', '{WK}') and "
           f"ordered('acquire', lambda l: l is self._flags.shutdown_lock, '{WK}', lambda *a: True) and exists_event('acquire', lambda l: l is self._flags.shutdown_lock))")
 c.ensures("resize/call-queue-can-hold-one-task-per-worker",
@@ -128,10 +131,16 @@ c.ensures("resize/under-the-submit-resize-lock", "log_arg('acquire', 0, 0) is se
 c.at_call("mp.Queue.put", "sentinels-posted-under-the-management-lock-after-the-size-was-recorded-between-the-wait-and-the-top-up",
           f"held(self._processes_management_lock) and held(self._submit_resize_lock) and self._max_workers == {MW} and arg_0 is None and "
           f"arg_self is self._call_queue and log_count('{WJC}') == 1 and log_count('{ADJ}') == 0", prop="C10")
+# a full call queue is waited for (blocking put: the workers drain it), never turned into queue.Full out of get_reusable_executor with the sentinels half posted
+c.at_call("mp.Queue.put_nowait", "sentinels-are-posted-with-a-blocking-put-a-full-call-queue-is-waited-for", "False", prop="C10")
 c.at_call("Process.is_alive", "surplus-counted-under-the-management-lock-after-the-job-wait-or-polled-after-the-top-up",
           f"(held(self._processes_management_lock) and log_count('{WJC}') == 1 and log_count('{ADJ}') == 0) or log_count('{ADJ}') == 1", prop="C10")
 c.at_call(f"{PE}:{PPE}._adjust_process_count", "tops-up-under-the-submit-resize-lock-with-the-new-size",
           f"held(self._submit_resize_lock) and self._max_workers == {MW}", prop="C10")
+# "also when workers die during it": a pool that broke while the resize waited is being torn down by its manager thread (workers killed, queues closed): nothing
+# is spawned into it (nobody would manage the new workers; since the read end of the call queue is closed the spawn raises out of get_reusable_executor)
+c.at_call(f"{PE}:{PPE}._adjust_process_count", "no-worker-is-spawned-into-a-pool-that-broke-during-the-resize", "self._flags.broken is None", prop="C10")
+c.replay_for("no-worker-is-spawned-into-a-pool-that-broke-during-the-resize", "resize_after_break")
 c.raises("resize/none-is-rejected-before-anything-happens-and-every-error-leaves-the-lock-released", "Exception",
          post="log_tags()[-1] == 'release' and implies(is_none(max_workers), exc_is(exc, 'ValueError') and G.n_sentinels == old(G.n_sentinels) and "
               "log_count('sleep') == 0 and self._max_workers == old(self._max_workers))")
@@ -139,7 +148,7 @@ c.raises_only("resize/only-exceptions")
 c.yield_at("time.sleep", SHARED, tag="A-yield")
 c.replay_for("exits-under/registered-workers-running-or-pool-broken", "resize_worker_leaves", bound="12")
 c.modifies("self._max_workers", *SHARED, "G.started", "G.pid_live", "G.proc_of_pid", "G.sem_released", "G.n_sentinels")
-i = M.invariant(f"{RPE}._resize", 0, "for _ in range(max_workers, nb_children_alive):")
+i = M.invariant(f"{RPE}._resize", 0, "for _ in range(")   # the bounds are pinned by the invariant, not by the anchor
 i.inv("one-sentinel-per-surplus-worker-found-alive",
       f"G.n_sentinels == at_entry(G.n_sentinels) + __i0 and __i0 <= max(0, nb_children_alive - {MW}) and self._max_workers == {MW}")
 i.iter_post("one-sentinel", "log_count('cq_put') == 1 and log_count('cq_put_full') == 0")
@@ -209,7 +218,7 @@ c.at_call(f"{RE}:{RPE}.get_reusable_executor", "recursion-only-after-dropping-th
 c.raises("factory/errors-leave-the-lock-released", "BaseException", post="log_tags()[-1] == 'release'")
 c.modifies(f"glob:{RE}._executor", f"glob:{RE}._executor_kwargs", f"glob:{RE}._next_executor_id",
            f"glob:{PE}._system_limits_checked", f"glob:{PE}._system_limited", "glob:loky.backend.context.physical_cores_cache",
-           f"glob:{PE}.process_pool_executor_at_exit", "G.started", "G.pid_live", "G.proc_of_pid", "G.sem_released", "G.n_sentinels",
+           f"glob:{PE}.process_pool_executor_at_exit", "G.started", "G.pid_live", "G.proc_of_pid", "G.sem_released", "G.n_sentinels", "G.concurrent_shutdown",
            "_executor._max_workers", "_executor._flags.shutdown", "_executor._flags.kill_workers", "_executor._flags.broken",
            "_executor._executor_manager_thread", "_executor._executor_manager_thread_wakeup", "_executor._call_queue", "_executor._result_queue",
            "_executor._processes_management_lock", "contents(_executor._pending_work_items)", "contents(_executor._running_work_items)",
@@ -231,7 +240,7 @@ c.ensures("public/forwards-every-argument-and-returns-the-executor",
 c.raises("public/errors-of-the-factory-propagate", "BaseException")
 c.modifies(f"glob:{RE}._executor", f"glob:{RE}._executor_kwargs", f"glob:{RE}._next_executor_id",
            f"glob:{PE}._system_limits_checked", f"glob:{PE}._system_limited", "glob:loky.backend.context.physical_cores_cache",
-           f"glob:{PE}.process_pool_executor_at_exit", "G.started", "G.pid_live", "G.proc_of_pid", "G.sem_released", "G.n_sentinels",
+           f"glob:{PE}.process_pool_executor_at_exit", "G.started", "G.pid_live", "G.proc_of_pid", "G.sem_released", "G.n_sentinels", "G.concurrent_shutdown",
            "_executor._max_workers", "_executor._flags.shutdown", "_executor._flags.kill_workers", "_executor._flags.broken",
            "_executor._executor_manager_thread", "_executor._executor_manager_thread_wakeup", "_executor._call_queue", "_executor._result_queue",
            "_executor._processes_management_lock", "contents(_executor._pending_work_items)", "contents(_executor._running_work_items)",
